@@ -123,6 +123,51 @@ pub fn run(run: &Run) {
             cp += n as u32;
         }
     });
+    battery(run, "misordered_marks", &misordered_mark_strings(), &|s, l| PROFS.iter().all(|p| match check(run, *p, s, l) {
+        Ok(()) => true,
+        Err(v) => {
+            run.violate(v);
+            false
+        }
+    }));
+    run.par("nearest_valid_neighbour_pairs", true, |tid, n, l| {
+        let d = crate::ucd::db();
+        for (ci, p) in [Prof::UserPreserved, Prof::Opaque, Prof::Nick].iter().enumerate() {
+            let valid = |cp: u32| matches!(if ci == 0 { d.id(cp) } else { d.ff(cp) }, Dpv::PValid | Dpv::SpecPval);
+            let mut last_valid: Option<char> = None;
+            let mut cp = 0u32;
+            while cp < 0x110000 {
+                if ((cp / 4096) as usize) % n != tid {
+                    cp += 4096;
+                    last_valid = None;
+                    continue;
+                }
+                if last_valid.is_none() {
+                    let mut b = cp;
+                    while b > 0 {
+                        b -= 1;
+                        if valid(b) {
+                            last_valid = char::from_u32(b);
+                            break;
+                        }
+                    }
+                }
+                if let Some(c) = char::from_u32(cp) {
+                    if valid(cp) {
+                        last_valid = Some(c);
+                    } else if let Some(v) = last_valid {
+                        let s = format!("{v}{c}");
+                        l.cases += 1;
+                        if check(run, *p, &s, l).is_err() {
+                            report(run, *p, &s);
+                            return;
+                        }
+                    }
+                }
+                cp += 1;
+            }
+        }
+    });
     composing_pairs(run, "all_composing_pairs", &|s, l| PROFS.iter().all(|p| match check(run, *p, s, l) {
         Ok(()) => true,
         Err(_) => {
